@@ -438,4 +438,329 @@ theorem C08_vector_factor (rd : Option Nat) (s : Scale) (bs : List Rat) :
 example : calcMRVecF [(0, 1), (0, 2), (0, 1/2)] none [(0, 1/4), (100, 1/2), (300, 1)] [50, 150, 400]
     = .ok [25/2, 75/2, 625/2] := by decide +kernel
 
+/-! ## round 2: shape of the tax function -/
+
+/-- the tax is monotone in the base when no rate is negative (any factor `f + ε > 0`) -/
+theorem C08_calc_monotone (ε f : Rat) (s : Scale) (hf : 0 < f + ε) (hs : StrictSorted s) (hr : ∀ c ∈ s, 0 ≤ c.2)
+    (b b' : Rat) (h : b ≤ b') : calcMR ε f none s b ≤ calcMR ε f none s b' := by
+  unfold calcMR
+  rw [decide_eq_true hf]
+  apply clipSum_mono _ (mapT_strictSorted (thrMap_strictMono ε f hf) hs).wsorted _ b b' h
+  intro c hc
+  obtain ⟨d, hd, e⟩ := mem_mapT hc
+  rw [e]; exact hr d hd
+
+example : calcMR 0 1 none [(0, 1/4), (100, 0), (300, 1/2)] 150 ≤ calcMR 0 1 none [(0, 1/4), (100, 0), (300, 1/2)] 350 :=
+  C08_calc_monotone 0 1 _ (by decide +kernel) (by decide +kernel) (by decide +kernel) 150 350 (by decide +kernel)
+
+/-- the tax function has no jump, in particular not at a threshold (where the closed forms of the two
+neighbouring brackets meet): it is Lipschitz, two bases are taxed at most `R × |b' − b|` apart when every
+rate lies in `[−R, R]` -/
+theorem C08_calc_lipschitz (ε f : Rat) (s : Scale) (hf : 0 < f + ε) (hs : StrictSorted s) (R : Rat) (h0 : 0 ≤ R)
+    (hR : ∀ c ∈ s, |c.2| ≤ R) (b b' : Rat) :
+    |calcMR ε f none s b' - calcMR ε f none s b| ≤ R * |b' - b| := by
+  have key : ∀ x x' : Rat, x ≤ x' → |calcMR ε f none s x' - calcMR ε f none s x| ≤ R * (x' - x) := by
+    intro x x' hxx
+    unfold calcMR
+    rw [decide_eq_true hf]
+    have hl := (mapT_strictSorted (thrMap_strictMono ε f hf) hs).wsorted
+    cases hm : mapT (thrMap ε f none) s with
+    | nil =>
+      simp only [clipSum, sub_self, abs_zero]
+      exact mul_nonneg h0 (by linarith)
+    | cons a rest =>
+      obtain ⟨t, r⟩ := a
+      rw [hm] at hl
+      have hR' : ∀ c ∈ (t, r) :: rest, -R ≤ c.2 ∧ c.2 ≤ R := by
+        intro c hc
+        rw [← hm] at hc
+        obtain ⟨d, hd, e⟩ := mem_mapT hc
+        rw [e]
+        exact abs_le.mp (hR d hd)
+      obtain ⟨u, l⟩ := clipSum_diff_bounds R t r rest hl hR' x x' hxx
+      have hD : pp (x' - t) - pp (x - t) ≤ x' - x := by
+        have := pp_diff_le (show x - t ≤ x' - t by linarith); linarith
+      have hD0 : 0 ≤ pp (x' - t) - pp (x - t) := by
+        have := pp_mono (show x - t ≤ x' - t by linarith); linarith
+      rw [abs_le]
+      constructor <;> nlinarith
+  rcases le_total b b' with h | h
+  · rw [abs_of_nonneg (by linarith : 0 ≤ b' - b)]; exact key b b' h
+  · rw [abs_sub_comm, abs_sub_comm b' b, abs_of_nonneg (by linarith : 0 ≤ b - b')]; exact key b' b h
+
+example : |calcMR 0 1 none [(0, 1/4), (100, -1/2)] 101 - calcMR 0 1 none [(0, 1/4), (100, -1/2)] 99| ≤ 1/2 * |(101 : Rat) - 99| :=
+  C08_calc_lipschitz 0 1 _ (by decide +kernel) (by decide +kernel) (1/2) (by decide +kernel) (by decide +kernel) 99 101
+
+/-- the reported bracket never goes down when the base goes up (any scale, factor, rounding) -/
+theorem C08_bracket_index_monotone (ε f : Rat) (rd : Option Nat) (s : Scale) (b b' : Rat) (h : b ≤ b') :
+    bracketIndex ε f rd s b ≤ bracketIndex ε f rd s b' := bracketIndex_mono ε f rd s h
+
+example : bracketIndex (1/4503599627370496) (3/2) (some 0) [(0, 1/4), (5, 1/2), (9, 1)] 7
+    ≤ bracketIndex (1/4503599627370496) (3/2) (some 0) [(0, 1/4), (5, 1/2), (9, 1)] 14 :=
+  C08_bracket_index_monotone _ _ _ _ 7 14 (by decide +kernel)
+
+/-- inside one bracket `(t, r)` — both bases between `τ t` and the next perturbed threshold, ends included — the
+tax is affine with slope `r`: the reported marginal rate (`C08_bracket_reported`) is the derivative of `calc` -/
+theorem C08_marginal_rate_derivative (ε f : Rat) (pre : Scale) (t r : Rat) (post : Scale) (b b' : Rat)
+    (hf : 0 < f + ε) (hs : StrictSorted (pre ++ (t, r) :: post))
+    (hb : (f + ε) * t ≤ b) (hb' : (f + ε) * t ≤ b')
+    (hpost : ∀ c ∈ post, b ≤ (f + ε) * c.1) (hpost' : ∀ c ∈ post, b' ≤ (f + ε) * c.1) :
+    calcMR ε f none (pre ++ (t, r) :: post) b' - calcMR ε f none (pre ++ (t, r) :: post) b = r * (b' - b) := by
+  rw [C08_marginal_rate_closed ε f pre t r post b hf hs hb hpost, C08_marginal_rate_closed ε f pre t r post b' hf hs hb' hpost']
+  ring
+
+example : calcMR 0 1 none ([(0, 1/4)] ++ (100, 1/2) :: [(300, 1)]) 300 - calcMR 0 1 none ([(0, 1/4)] ++ (100, 1/2) :: [(300, 1)]) 100
+    = 1/2 * (300 - 100) :=
+  C08_marginal_rate_derivative 0 1 _ _ _ _ 100 300 (by decide +kernel) (by decide +kernel) (by decide +kernel) (by decide +kernel)
+    (by intro c hc; simp at hc; subst hc; decide +kernel) (by intro c hc; simp at hc; subst hc; decide +kernel)
+
+/-- `commons.marginal_rate` (`1 −` the finite difference of the net income over that of the gross income) applied to
+the net incomes `b − calc b` of two distinct gross incomes of one bracket returns that bracket's rate -/
+theorem C08_finite_difference_rate (ε f : Rat) (pre : Scale) (t r : Rat) (post : Scale) (b b' : Rat)
+    (hf : 0 < f + ε) (hs : StrictSorted (pre ++ (t, r) :: post))
+    (hb : (f + ε) * t ≤ b) (hb' : (f + ε) * t ≤ b')
+    (hpost : ∀ c ∈ post, b ≤ (f + ε) * c.1) (hpost' : ∀ c ∈ post, b' ≤ (f + ε) * c.1) (hne : b ≠ b') :
+    marginalRateFD none [b - calcMR ε f none (pre ++ (t, r) :: post) b, b' - calcMR ε f none (pre ++ (t, r) :: post) b'] [b, b']
+      = .ok [some r] := by
+  have hd := C08_marginal_rate_derivative ε f pre t r post b b' hf hs hb hb' hpost hpost'
+  have hbb : b - b' ≠ 0 := sub_ne_zero.mpr hne
+  simp only [marginalRateFD, hbb, if_false, trimRate]
+  congr 3
+  field_simp
+  linarith
+
+example : marginalRateFD none [120 - calcMR 0 1 none ([(0, 1/4)] ++ (100, 1/2) :: [(300, 1)]) 120,
+      180 - calcMR 0 1 none ([(0, 1/4)] ++ (100, 1/2) :: [(300, 1)]) 180] [120, 180] = .ok [some (1/2)] := by decide +kernel
+
+/-! ## round 2: the guards of the single-amount scale, `to_dict`, `commons.apply_thresholds` -/
+
+/-- `SingleAmountTaxScale.calc` as written (bins `[-inf, *thresholds, inf]`, amounts `[0, *amounts, 0]`, Python
+index `digitize − 1`) is `calcSA` on every finite base: the two guard amounts are met at `±inf` only -/
+theorem C08_single_amount_guards (right : Bool) (s : Scale) (b : Rat) : calcSAE right s (.fin b) = .ok (calcSA right s b) :=
+  calcSAE_fin right s b
+
+example : calcSAE false [(0, 1), (10, 2)] (.fin 10) = .ok 2 ∧ calcSAE false [(0, 1), (10, 2)] .posInf = .ok 0 ∧
+    calcSAE true [(0, 1), (10, 2)] .posInf = .ok 2 ∧ calcSAE true [(0, 1), (10, 2)] .negInf = .ok 0 := by decide +kernel
+
+/-- `to_dict()` of a scale built by `add_bracket` lists exactly its brackets, in threshold order -/
+theorem C08_to_dict (l : List (Rat × Rat)) : toDict (build l) = build l := toDict_sorted _ (build_sorted l)
+
+example : toDict (build [(100, 1/2), (0, 1/4), (100, 1/8)]) = [(0, 1/4), (100, 5/8)] := by decide +kernel
+/-- thresholds made equal by a rounding `multiply_thresholds` collapse: first position, last rate -/
+example : toDict (multiplyThresholds [(0, 1/4), (1, 1/2), (2, 1), (100, 1/8)] (1/8) (some 0)) = [(0, 1), (12, 1/8)] := by decide +kernel
+
+/-- `commons.apply_thresholds`: the choice attached to the first threshold that the input does not exceed
+(as many choices as thresholds, or one more) -/
+theorem C08_apply_thresholds (x : Rat) (pre : List Rat) (t : Rat) (post cpre : List Rat) (c : Rat) (cpost : List Rat)
+    (hlen : cpre.length = pre.length) (hshape : cpost.length = post.length ∨ cpost.length = post.length + 1)
+    (hpre : ∀ u ∈ pre, u < x) (ht : x ≤ t) :
+    applyThresholds x (pre ++ t :: post) (cpre ++ c :: cpost) = .ok c := by
+  have hsel : ∀ (extra : List Bool) (more : List Rat),
+      selectFirst (((pre ++ t :: post).map (fun u => decide (x ≤ u)) ++ extra).zip (cpre ++ c :: more)) = c := by
+    intro extra more
+    rw [List.map_append, List.map_cons, List.append_assoc, List.cons_append,
+      List.zip_append (by simp [hlen]), List.zip_cons_cons, decide_eq_true ht]
+    apply selectFirst_split
+    intro p hp
+    obtain ⟨hp1, _⟩ := List.of_mem_zip hp
+    obtain ⟨u, hu, e⟩ := List.mem_map.mp hp1
+    rw [← e]
+    exact decide_eq_false (not_le.mpr (hpre u hu))
+  unfold applyThresholds
+  rcases hshape with h | h
+  · have e1 : ¬ ((pre ++ t :: post).map (fun u => decide (x ≤ u))).length + 1 = (cpre ++ c :: cpost).length := by
+      simp [hlen, h]
+    simp only [e1, if_false]
+    rw [if_neg (by simp [hlen, h]), if_neg (by simp)]
+    have := hsel [] cpost
+    rw [List.append_nil] at this
+    rw [this]
+  · have e1 : ((pre ++ t :: post).map (fun u => decide (x ≤ u))).length + 1 = (cpre ++ c :: cpost).length := by
+      simp [hlen, h]; omega
+    simp only [e1, if_true]
+    rw [if_neg (by simp [hlen, h]), if_neg (by simp)]
+    rw [hsel [true] cpost]
+
+example : applyThresholds 6 ([5] ++ 7 :: []) ([10] ++ 15 :: [20]) = .ok 15 :=
+  C08_apply_thresholds 6 [5] 7 [] [10] 15 [20] rfl (Or.inr rfl) (by decide +kernel) (by decide +kernel)
+
+/-- … and above every threshold: the extra choice when there is one, else 0 (`numpy.select`'s default) -/
+theorem C08_apply_thresholds_above (x : Rat) (ths cs : List Rat) (hx : ∀ u ∈ ths, u < x) (hlen : cs.length = ths.length) :
+    (∀ c, applyThresholds x ths (cs ++ [c]) = .ok c) ∧ (ths ≠ [] → applyThresholds x ths cs = .ok 0) := by
+  have hfalse : ∀ (more : List Rat), ∀ p ∈ (ths.map (fun u => decide (x ≤ u))).zip more, p.1 = false := by
+    intro more p hp
+    obtain ⟨hp1, _⟩ := List.of_mem_zip hp
+    obtain ⟨u, hu, e⟩ := List.mem_map.mp hp1
+    rw [← e]
+    exact decide_eq_false (not_le.mpr (hx u hu))
+  constructor
+  · intro c
+    unfold applyThresholds
+    have e1 : (ths.map (fun u => decide (x ≤ u))).length + 1 = (cs ++ [c]).length := by simp [hlen]
+    simp only [e1, if_true]
+    rw [if_neg (by simp [hlen]), if_neg (by simp)]
+    rw [List.zip_append (by simp [hlen])]
+    have : selectFirst ((ths.map (fun u => decide (x ≤ u))).zip cs ++ [true].zip [c]) = c := by
+      simpa using selectFirst_split _ c [] (hfalse cs)
+    rw [this]
+  · intro hne
+    unfold applyThresholds
+    have e1 : ¬ (ths.map (fun u => decide (x ≤ u))).length + 1 = cs.length := by simp [hlen]
+    simp only [e1, if_false]
+    rw [if_neg (by simp [hlen]), if_neg (by simpa using hne)]
+    rw [selectFirst_none _ (hfalse cs)]
+
+example : applyThresholds 8 [5, 7] ([10, 15] ++ [20]) = .ok 20 ∧ applyThresholds 8 [5, 7] [10, 15] = .ok 0 :=
+  ⟨(C08_apply_thresholds_above 8 [5, 7] [10, 15] (by decide +kernel) rfl).1 20,
+   (C08_apply_thresholds_above 8 [5, 7] [10, 15] (by decide +kernel) rfl).2 (by simp)⟩
+
+/-- `commons.average_rate` of the net income `b − calc b` left by a linear-average-rate scale, over the gross income `b ≠ 0`
+inside `[t, t')`, is the interpolated average rate of `C08_linear_average_def` -/
+theorem C08_average_rate_linear (pre : Scale) (t r t' r' : Rat) (post : Scale) (b : Rat)
+    (hs : StrictSorted (pre ++ (t, r) :: (t', r') :: post)) (h1 : t ≤ b) (h2 : b < t') (hb : b ≠ 0) :
+    ∃ v, calcLA (pre ++ (t, r) :: (t', r') :: post) b = .ok v ∧
+      averageRate none (b - v) b = .ok (some (r + (b - t) * ((r' - r) / (t' - t)))) := by
+  refine ⟨_, C08_linear_average_def pre t r t' r' post b hs h1 h2, ?_⟩
+  simp only [averageRate, hb, if_false, trimRate]
+  congr 2
+  field_simp
+  ring
+
+example : ∃ v, calcLA ([(0, 0)] ++ (100, 1/8) :: (300, 1/2) :: []) 200 = .ok v ∧
+    averageRate none (200 - v) 200 = .ok (some (1/8 + (200 - 100) * ((1/2 - 1/8) / (300 - 100)))) :=
+  C08_average_rate_linear _ _ _ _ _ _ 200 (by decide +kernel) (by decide +kernel) (by decide +kernel) (by decide +kernel)
+
+/-- `switch`: the value of the first key equal to the condition, 0 when there is none -/
+theorem C08_switch (c : Rat) (pre : List (Rat × Rat)) (v : Rat) (post : List (Rat × Rat)) (hpre : ∀ p ∈ pre, p.1 ≠ c) :
+    switchSel c (pre ++ (c, v) :: post) = .ok v ∧
+    (∀ table : List (Rat × Rat), table ≠ [] → (∀ p ∈ table, p.1 ≠ c) → switchSel c table = .ok 0) := by
+  constructor
+  · unfold switchSel
+    rw [if_neg (by simp)]
+    rw [List.map_append, List.map_cons]
+    simp only [decide_true]
+    rw [selectFirst_split]
+    intro p hp
+    obtain ⟨q, hq, e⟩ := List.mem_map.mp hp
+    rw [← e]
+    exact decide_eq_false (fun h => hpre q hq h.symm)
+  · intro table hne hall
+    unfold switchSel
+    rw [if_neg (by simpa using hne)]
+    rw [selectFirst_none]
+    intro p hp
+    obtain ⟨q, hq, e⟩ := List.mem_map.mp hp
+    rw [← e]
+    exact decide_eq_false (fun h => hall q hq h.symm)
+
+example : switchSel 2 ([(1, 80)] ++ (2, 90) :: []) = .ok 90 := (C08_switch 2 [(1, 80)] 90 [] (by decide +kernel)).1
+
+/-! ## round 2: the conventions outside the claim domain, as the code has them (mirrored by the model, compared by the
+correspondence, not part of the statement) -/
+
+/-- below every (perturbed, rounded) threshold no bracket contains the base: the reported index is `−1`, and
+`marginal_rates` then wraps around to the LAST rate (`numpy` indexing with `−1`) -/
+theorem C08_index_below_first (ε f : Rat) (rd : Option Nat) (s : Scale) (b : Rat) (hne : s ≠ [])
+    (hb : ∀ c ∈ s, b < thrMap ε f rd c.1) :
+    bracketIndex ε f rd s b = -1 ∧ marginalRate ε f rd s b = .ok ((s.getLast hne).2) := by
+  have hidx : bracketIndex ε f rd s b = -1 := by
+    unfold bracketIndex
+    rw [List.countP_eq_zero.mpr]
+    · simp
+    · intro c hc
+      have := hb c hc
+      simp only [decide_eq_true_eq, not_le]
+      linarith
+  refine ⟨hidx, ?_⟩
+  unfold marginalRate
+  rw [hidx]
+  unfold pyIndex
+  have hlen : 0 < (rates s).length := by
+    cases s with
+    | nil => exact absurd rfl hne
+    | cons a rest => simp [rates]
+  rw [if_neg (by omega), if_pos (by omega)]
+  congr 1
+  have e : (((rates s).length : Int) + -1).toNat = (rates s).length - 1 := by omega
+  rw [e, rates_getD]
+  have hl : (rates s).length = s.length := by simp [rates]
+  rw [hl, List.getD_eq_getElem?_getD, ← List.getLast?_eq_getElem?, List.getLast?_eq_some_getLast hne]
+  rfl
+
+example : bracketIndex (1/4503599627370496) 1 none [(50, 1/4), (100, 1/2)] 50 = -1 ∧
+    marginalRate (1/4503599627370496) 1 none [(50, 1/4), (100, 1/2)] 50 = .ok (1/2) := by decide +kernel
+
+/-- the linear-average scale (two brackets or more) yields 0 below its first threshold and at or above its last one -/
+theorem C08_linear_average_outside (a a' : Rat × Rat) (rest : Scale) (b : Rat)
+    (hb : (∀ c ∈ a :: a' :: rest, b < c.1) ∨ (∀ c ∈ a :: a' :: rest, c.1 ≤ b)) :
+    calcLA (a :: a' :: rest) b = .ok 0 := by
+  have hz : laSums (a :: a' :: rest) b = (0, 0, 0) := by
+    rcases hb with h | h
+    · exact laSums_zero_of_lt _ b h
+    · exact laSums_zero_of_le _ b h
+  obtain ⟨t, r⟩ := a
+  obtain ⟨t', r'⟩ := a'
+  simp only [calcLA, hz]
+  congr 1
+  ring
+
+example : calcLA [(0, 0), (100, 1/8), (300, 1/2)] 300 = .ok 0 ∧ calcLA [(0, 0), (100, 1/8), (300, 1/2)] (-5) = .ok 0 := by decide +kernel
+
+/-- `marginal_rates`, `threshold_from_tax_base` and `rate_from_tax_base` on a vector are the single-base computations,
+element by element (non-empty scale and vector; the empty ones raise, `bracketIndices`) -/
+theorem C08_vector_rates (ε f : Rat) (rd : Option Nat) (s : Scale) (bs : List Rat) (h1 : s ≠ []) (h2 : bs ≠ []) :
+    marginalRates ε f rd s bs = bs.mapM (marginalRate ε f rd s) ∧
+    thresholdFromTaxBase ε s bs = bs.mapM (fun b => pyIndex (thresholds s) (bracketIndex ε 1 none s b)) := by
+  constructor
+  · unfold marginalRates
+    rw [(C08_vector_pointwise ε f rd s bs).2 h1 h2]
+    simp only [bind, Except.bind]
+    rw [mapM_pyIndex_map]
+    rfl
+  · unfold thresholdFromTaxBase
+    rw [(C08_vector_pointwise ε 1 none s bs).2 h1 h2]
+    simp only [bind, Except.bind]
+    rw [mapM_pyIndex_map]
+
+/-- the threshold and the rate reported for a base are those of the bracket containing it (`threshold_from_tax_base`,
+`rate_from_tax_base`; factor 1, perturbation `ε`) -/
+theorem C08_threshold_rate_from_tax_base (ε : Rat) (pre : Scale) (t r : Rat) (post : Scale) (b : Rat)
+    (hf : 0 < 1 + ε) (hs : StrictSorted (pre ++ (t, r) :: post))
+    (hb : (1 + ε) * t ≤ b) (hpost : ∀ c ∈ post, b < (1 + ε) * c.1) :
+    thresholdFromTaxBase ε (pre ++ (t, r) :: post) [b] = .ok [t] ∧ rateFromTaxBase ε (pre ++ (t, r) :: post) [b] = .ok [r] := by
+  obtain ⟨hidx, _⟩ := C08_bracket_reported ε 1 pre t r post b hf hs hb hpost
+  have hne : (pre ++ (t, r) :: post) ≠ [] := by simp
+  have hbi : bracketIndices ε 1 none (pre ++ (t, r) :: post) [b] = .ok [(pre.length : Int)] := by
+    rw [(C08_vector_pointwise ε 1 none _ [b]).2 hne (by simp)]
+    simp only [List.map_cons, List.map_nil, hidx]
+  have hlenT : ((thresholds (pre ++ (t, r) :: post)).length : Int) = pre.length + post.length + 1 := by
+    simp [thresholds]; omega
+  have hlenR : ((rates (pre ++ (t, r) :: post)).length : Int) = pre.length + post.length + 1 := by
+    simp [rates]; omega
+  have hT : pyIndex (thresholds (pre ++ (t, r) :: post)) (pre.length : Int) = .ok t := by
+    unfold pyIndex
+    rw [if_pos (by rw [hlenT]; omega), Int.toNat_natCast]
+    congr 1
+    simp [thresholds, List.getD_eq_getElem?_getD]
+  have hRr : pyIndex (rates (pre ++ (t, r) :: post)) (pre.length : Int) = .ok r := by
+    unfold pyIndex
+    rw [if_pos (by rw [hlenR]; omega), Int.toNat_natCast, rates_getD, getD_split]
+  constructor
+  · unfold thresholdFromTaxBase
+    rw [hbi]
+    simp only [bind, Except.bind, List.mapM_cons, List.mapM_nil, hT, pure, Except.pure]
+  · unfold rateFromTaxBase
+    rw [hbi]
+    simp only [bind, Except.bind]
+    unfold rateFromBracketIndice
+    have hnot : ([(pre.length : Int)].any fun i => decide (i > ((pre ++ (t, r) :: post).length : Int) - 1)) = false := by
+      simp; omega
+    simp only [List.isEmpty_cons, Bool.false_eq_true, if_false, hnot]
+    simp only [List.mapM_cons, List.mapM_nil, hRr, bind, Except.bind, pure, Except.pure]
+
+example : thresholdFromTaxBase (1/4503599627370496) ([(0, 0)] ++ (200, 1/8) :: [(500, 1/4)]) [450] = .ok [200] ∧
+    rateFromTaxBase (1/4503599627370496) ([(0, 0)] ++ (200, 1/8) :: [(500, 1/4)]) [450] = .ok [1/8] :=
+  C08_threshold_rate_from_tax_base _ _ _ _ _ 450 (by decide +kernel) (by decide +kernel) (by decide +kernel)
+    (by intro c hc; simp at hc; subst hc; decide +kernel)
+
 end OFCore
